@@ -1563,4 +1563,185 @@ example : Reports "FIELD_SAME_DEFAULT" ⟨"FIELD_SAME_DEFAULT", "lim.proto", [4,
 example : Reports "FIELD_SAME_DEFAULT" ⟨"FIELD_SAME_DEFAULT", "lim.proto", [4, 0, 2, 3, 7]⟩ dCur dPrev :=
   detects_default_change dCur_wf (dM_paired 4 (by decide) (by decide) rfl) rfl rfl (by decide) (by decide)
 
+/-! ### the ALIAS family of the enum-value rules (witness `alPrev → alCurSome / alCurAll`)
+
+    With `allow_alias` a number has several names.  The three deletion rules pair values by NUMBER
+    (a number "is deleted" when NO value carries it any more) and the name rule exempts the deletion
+    only when EVERY previous name of the number is reserved; ENUM_VALUE_SAME_NAME speaks about numbers
+    that still exist.  `detects_enum_value_delete_unless_name_reserved` above already has the
+    all-names reading (its hypothesis is about ONE unreserved name `pv`, whatever happens to the
+    other names of the number); the statements below spell the family out. -/
+
+/-- PARTIAL reservation: two names `a`, `b` of one number, every value of the number is gone, `a` is
+    reserved and `b` is not ⇒ ENUM_VALUE_NO_DELETE_UNLESS_NAME_RESERVED reports (the regression
+    "some name is reserved ⇒ fine" makes exactly this statement false). -/
+theorem detects_enum_value_delete_partial_name_reservation (hw : WF cur) {pe ce : FlatEnum} {a b : EnumValue}
+    (hpe : pe ∈ allEnums prev) (hce : ce ∈ allEnums cur) (hname : ce.fullName = pe.fullName)
+    (_ha : a ∈ pe.enum.values) (hb : b ∈ pe.enum.values) (_hab : a.number = b.number)
+    (hdel : ∀ cv ∈ ce.enum.values, cv.number ≠ b.number)
+    (_hares : a.name ∈ ce.enum.reservedNames) (hbres : b.name ∉ ce.enum.reservedNames) :
+    Reports "ENUM_VALUE_NO_DELETE_UNLESS_NAME_RESERVED"
+      (enumLoc ce "ENUM_VALUE_NO_DELETE_UNLESS_NAME_RESERVED" pe.file) cur prev :=
+  detects_enum_value_delete_unless_name_reserved hw hpe hce hname hb hdel hbres
+
+/-- the pair handler is silent when it is silent on every pair of same-named enums -/
+theorem enumPairs_nil_of {f : FlatEnum → FlatEnum → List Ann}
+    (h : ∀ pe ∈ allEnums prev, ∀ ce ∈ allEnums cur, ce.fullName = pe.fullName → f ce pe = []) :
+    enumPairs cur prev f = [] := by
+  unfold enumPairs
+  rw [pairwise_eq_nil_iff]
+  intro p hp
+  cases hf : (allEnums cur).find? (fun c => decide (c.fullName = p.fullName)) with
+  | none => rfl
+  | some c =>
+    have hk : c.fullName = p.fullName := by simpa using List.find?_some hf
+    exact h p hp c (List.mem_of_find?_eq_some hf) hk
+
+/-- SILENCE of the name rule: whenever a number is gone from an enum, ALL its previous names are
+    reserved ⇒ ENUM_VALUE_NO_DELETE_UNLESS_NAME_RESERVED reports nothing at all. -/
+theorem enum_value_delete_all_names_reserved_silent
+    (h : ∀ pe ∈ allEnums prev, ∀ ce ∈ allEnums cur, ce.fullName = pe.fullName →
+      ∀ pv ∈ pe.enum.values, (∀ cv ∈ ce.enum.values, cv.number ≠ pv.number) →
+        ∀ w ∈ pe.enum.values, w.number = pv.number → w.name ∈ ce.enum.reservedNames) :
+    runRule "ENUM_VALUE_NO_DELETE_UNLESS_NAME_RESERVED" cur prev = [] := by
+  rw [runRule_eq (f := enumValueNoDelete "ENUM_VALUE_NO_DELETE_UNLESS_NAME_RESERVED" false true) rfl]
+  unfold enumValueNoDelete
+  apply enumPairs_nil_of
+  intro pe hpe ce hce hname
+  apply List.flatMap_eq_nil_iff.2
+  intro pv hpv
+  cases hn : ce.enum.hasNumber pv.number with
+  | true => simp
+  | false =>
+    have hdel : ∀ cv ∈ ce.enum.values, cv.number ≠ pv.number := by
+      intro cv hcv heq
+      have : ce.enum.hasNumber pv.number = true := by
+        unfold Enum.hasNumber
+        exact List.any_eq_true.2 ⟨cv, hcv, by simpa using heq⟩
+      rw [hn] at this
+      exact Bool.noConfusion this
+    have hall : ((pe.enum.values.filter fun w => decide (w.number = pv.number)).all
+        fun w => decide (w.name ∈ ce.enum.reservedNames)) = true := by
+      apply List.all_eq_true.2
+      intro w hw
+      obtain ⟨h1, h2⟩ := List.mem_filter.1 hw
+      simpa using h pe hpe ce hce hname pv hpv hdel w h1 (by simpa using h2)
+    simp [hall]
+
+/-- SILENCE of the number rule: every number that is gone lies inside a reserved range ⇒
+    ENUM_VALUE_NO_DELETE_UNLESS_NUMBER_RESERVED reports nothing. -/
+theorem enum_value_delete_number_reserved_silent
+    (h : ∀ pe ∈ allEnums prev, ∀ ce ∈ allEnums cur, ce.fullName = pe.fullName →
+      ∀ pv ∈ pe.enum.values, (∀ cv ∈ ce.enum.values, cv.number ≠ pv.number) →
+        ∃ r ∈ ce.enum.reservedRanges, r.1 ≤ pv.number ∧ pv.number ≤ r.2) :
+    runRule "ENUM_VALUE_NO_DELETE_UNLESS_NUMBER_RESERVED" cur prev = [] := by
+  rw [runRule_eq (f := enumValueNoDelete "ENUM_VALUE_NO_DELETE_UNLESS_NUMBER_RESERVED" true false) rfl]
+  unfold enumValueNoDelete
+  apply enumPairs_nil_of
+  intro pe hpe ce hce hname
+  apply List.flatMap_eq_nil_iff.2
+  intro pv hpv
+  cases hn : ce.enum.hasNumber pv.number with
+  | true => simp
+  | false =>
+    have hdel : ∀ cv ∈ ce.enum.values, cv.number ≠ pv.number := by
+      intro cv hcv heq
+      have : ce.enum.hasNumber pv.number = true := by
+        unfold Enum.hasNumber
+        exact List.any_eq_true.2 ⟨cv, hcv, by simpa using heq⟩
+      rw [hn] at this
+      exact Bool.noConfusion this
+    obtain ⟨r, hr, hin⟩ := h pe hpe ce hce hname pv hpv hdel
+    have hres : numberReserved ce.enum.reservedRanges pv.number = true := by
+      unfold numberReserved
+      exact List.any_eq_true.2 ⟨r, hr, by simpa [rangeHas] using hin⟩
+    simp [hres]
+
+/-- a number that still has a value is no business of the three deletion rules, whatever happened
+    to its other names (removing an alias is ENUM_VALUE_SAME_NAME's business) -/
+theorem enum_value_number_kept_silent (rule : String) (allowNumber allowName : Bool)
+    (h : ∀ pe ∈ allEnums prev, ∀ ce ∈ allEnums cur, ce.fullName = pe.fullName →
+      ∀ pv ∈ pe.enum.values, ∃ cv ∈ ce.enum.values, cv.number = pv.number) :
+    enumValueNoDelete rule allowNumber allowName cur prev = [] := by
+  unfold enumValueNoDelete
+  apply enumPairs_nil_of
+  intro pe hpe ce hce hname
+  apply List.flatMap_eq_nil_iff.2
+  intro pv hpv
+  obtain ⟨cv, hcv, heq⟩ := h pe hpe ce hce hname pv hpv
+  have : ce.enum.hasNumber pv.number = true := by
+    unfold Enum.hasNumber
+    exact List.any_eq_true.2 ⟨cv, hcv, by simpa using heq⟩
+  simp [this]
+
+/-- the regression "ANY previous name of the deleted number is reserved ⇒ allowed"
+    (`slices.ContainsFunc` instead of the all-names loop of `isDeletedEnumValueAllowedWithRules`) -/
+def enumValueNoDeleteAnyName (cur prev : Schema) : List Ann :=
+  enumPairs cur prev fun c p =>
+    p.enum.values.flatMap fun pv =>
+      if c.enum.hasNumber pv.number then [] else
+      if (p.enum.values.filter fun w => decide (w.number = pv.number)).any fun w => decide (w.name ∈ c.enum.reservedNames)
+      then [] else [enumLoc c "ENUM_VALUE_NO_DELETE_UNLESS_NAME_RESERVED" p.file]
+
+/-- On `alPrev → alCurSome` (number 1 = {ON, ENABLED} gone, only ON reserved; nested number 5 =
+    {B, C} gone, only C reserved) the rule as coded reports at both enums, the ANY reading reports
+    NOTHING; with both names reserved (`alCurAll`, nested enum unchanged) the coded rule still
+    reports the nested enum only. -/
+theorem enum_value_any_name_reserved_counterexample :
+    runRule "ENUM_VALUE_NO_DELETE_UNLESS_NAME_RESERVED" alCurSome alPrev =
+      [⟨"ENUM_VALUE_NO_DELETE_UNLESS_NAME_RESERVED", "al.proto", [5, 0]⟩,
+       ⟨"ENUM_VALUE_NO_DELETE_UNLESS_NAME_RESERVED", "al.proto", [5, 0]⟩,
+       ⟨"ENUM_VALUE_NO_DELETE_UNLESS_NAME_RESERVED", "al.proto", [4, 0, 4, 0]⟩,
+       ⟨"ENUM_VALUE_NO_DELETE_UNLESS_NAME_RESERVED", "al.proto", [4, 0, 4, 0]⟩] ∧
+    enumValueNoDeleteAnyName alCurSome alPrev = [] ∧
+    runRule "ENUM_VALUE_NO_DELETE_UNLESS_NAME_RESERVED" alCurAll alPrev =
+      [⟨"ENUM_VALUE_NO_DELETE_UNLESS_NAME_RESERVED", "al.proto", [4, 0, 4, 0]⟩,
+       ⟨"ENUM_VALUE_NO_DELETE_UNLESS_NAME_RESERVED", "al.proto", [4, 0, 4, 0]⟩] := by decide
+
+/-- number 1 of the top-level enum `Mode` had the names ON and ENABLED; both values are gone and only
+    ON is reserved: reported at the enum, in every configuration where the rule is active -/
+example : Reports "ENUM_VALUE_NO_DELETE_UNLESS_NAME_RESERVED"
+    ⟨"ENUM_VALUE_NO_DELETE_UNLESS_NAME_RESERVED", "al.proto", [5, 0]⟩ alCurSome alPrev :=
+  detects_enum_value_delete_partial_name_reservation alCurSome_wf alpMode_mem alcMode_mem alMode_name
+    (a := ⟨"ON", 1⟩) (b := ⟨"ENABLED", 1⟩) (by decide) (by decide) rfl (by decide) (by decide) (by decide)
+
+/-- the same in the nested enum `Holder.Inner` (number 5 = {B, C}, only C reserved) -/
+example : Reports "ENUM_VALUE_NO_DELETE_UNLESS_NAME_RESERVED"
+    ⟨"ENUM_VALUE_NO_DELETE_UNLESS_NAME_RESERVED", "al.proto", [4, 0, 4, 0]⟩ alCurSome alPrev :=
+  detects_enum_value_delete_partial_name_reservation alCurSome_wf alpInner_mem alcInner_mem alInner_name
+    (a := ⟨"C", 5⟩) (b := ⟨"B", 5⟩) (by decide) (by decide) rfl (by decide) (by decide) (by decide)
+
+/-- the whole number is gone: ENUM_VALUE_NO_DELETE, whatever is reserved -/
+example : Reports "ENUM_VALUE_NO_DELETE" ⟨"ENUM_VALUE_NO_DELETE", "al.proto", [5, 0]⟩ alCurAll alPrev :=
+  detects_enum_value_delete alCurAll_wf alpMode_mem (by decide : enumOf alCurAll ["al", "Mode"] ∈ allEnums alCurAll)
+    (by decide) (pv := ⟨"X", 3⟩) (by decide) (by decide)
+
+/-- `reserved 6 to 8;` lies NEXT TO the deleted number 5 of `Inner`: the number rule reports -/
+example : Reports "ENUM_VALUE_NO_DELETE_UNLESS_NUMBER_RESERVED"
+    ⟨"ENUM_VALUE_NO_DELETE_UNLESS_NUMBER_RESERVED", "al.proto", [4, 0, 4, 0]⟩ alCurSome alPrev :=
+  detects_enum_value_delete_unless_number_reserved alCurSome_wf alpInner_mem alcInner_mem alInner_name
+    (pv := ⟨"B", 5⟩) (by decide) (by decide) (by decide)
+
+/-- number 3 = {X, Y} of `Mode` is gone with `reserved 3;`, number 1 without: the number rule reports
+    the enum exactly twice (ON and ENABLED, number 1), nothing for number 3 -/
+example : (runRule "ENUM_VALUE_NO_DELETE_UNLESS_NUMBER_RESERVED" alCurSome alPrev).filter (fun a => a.path == [5, 0]) =
+    [⟨"ENUM_VALUE_NO_DELETE_UNLESS_NUMBER_RESERVED", "al.proto", [5, 0]⟩,
+     ⟨"ENUM_VALUE_NO_DELETE_UNLESS_NUMBER_RESERVED", "al.proto", [5, 0]⟩] := by decide
+
+/-- alias OLD of number 2 is gone, LEGACY and ANCIENT stay: ENUM_VALUE_SAME_NAME at the number of
+    BOTH remaining names (2nd and 3rd value of the current enum), and none of the deletion rules
+    speaks about number 2 -/
+example : Reports "ENUM_VALUE_SAME_NAME" ⟨"ENUM_VALUE_SAME_NAME", "al.proto", [5, 0, 2, 1, 2]⟩ alCurSome alPrev ∧
+    Reports "ENUM_VALUE_SAME_NAME" ⟨"ENUM_VALUE_SAME_NAME", "al.proto", [5, 0, 2, 2, 2]⟩ alCurSome alPrev :=
+  ⟨detects_enum_value_rename alCurSome_wf alpMode_mem alcMode_mem alMode_name
+      (pv := ⟨"OLD", 2⟩) (jw := (1, ⟨"LEGACY", 2⟩)) (by decide) (by decide) rfl (by decide),
+   detects_enum_value_rename alCurSome_wf alpMode_mem alcMode_mem alMode_name
+      (pv := ⟨"OLD", 2⟩) (jw := (2, ⟨"ANCIENT", 2⟩)) (by decide) (by decide) rfl (by decide)⟩
+
+/-- `enum_value_delete_all_names_reserved_silent` is not vacuous: the top-level enum of `alCurAll`
+    satisfies its hypothesis (numbers 1 and 3 gone, all four names reserved) -/
+example : ∀ pv ∈ alpMode.enum.values, (∀ cv ∈ (enumOf alCurAll ["al", "Mode"]).enum.values, cv.number ≠ pv.number) →
+    ∀ w ∈ alpMode.enum.values, w.number = pv.number → w.name ∈ (enumOf alCurAll ["al", "Mode"]).enum.reservedNames := by
+  decide
+
 end BufProofs.C03
